@@ -20,10 +20,10 @@
 #            conditions, Delay docs advertise re-awaiting), and `Delay`/`Instant`
 #            objects do work across runs; but sharing one condition object between
 #            simulations is unusual, and the docs do not promise it either.
-import sys; sys.path.insert(0, '/tmp/hunt1')
+import sys; sys.path.insert(0, '/repo')
 import faulthandler; faulthandler.dump_traceback_later(20, exit=True)
 import usim
-assert usim.__file__.startswith('/tmp/hunt1')
+assert usim.__file__.startswith('/repo')
 from usim import run, time
 
 deadline = (time >= 5)
